@@ -256,6 +256,43 @@ def dirty_process_state(chdir=None):
         os.close(saved_fd)
 
 
+@contextlib.contextmanager
+def stdout_is_a_terminal():
+    """file descriptor 1 is the slave side of a pseudo-terminal for the duration of the
+    block (an interactive session), drained by a helper process; Python's
+    own sys.stdout is diverted to a string buffer meanwhile"""
+    import io
+    import pty
+    import threading
+    _c_stdout_unbuffered()
+    sys.stdout.flush()
+    import subprocess
+    master, slave = pty.openpty()
+    # (drained by another *process*: a kernel that prints while it holds the interpreter
+    # lock would never let a draining thread run, and block on a full terminal buffer)
+    drain = subprocess.Popen(["cat"], stdin=master, stdout=subprocess.DEVNULL,
+                             stderr=subprocess.DEVNULL, close_fds=True)
+    saved_fd = os.dup(1)
+    os.dup2(slave, 1)
+    py_out, sys.stdout = sys.stdout, io.StringIO()
+    try:
+        yield
+    finally:
+        sys.stdout = py_out
+        os.dup2(saved_fd, 1)
+        os.close(saved_fd)
+        os.close(slave)
+        try:
+            os.close(master)
+        except OSError:
+            pass
+        try:
+            drain.terminate()
+            drain.wait(timeout=10)
+        except Exception:
+            pass
+
+
 def size_edges(lo=1, hi=10001):
     """lengths at which blocked processing, fixed-size buffers and thresholds change
     hands: powers of two and round decimal numbers, each with its two neighbours"""
@@ -289,6 +326,45 @@ def scalar_forms(v, k=0):
     if np.isfinite(fv) and fv == int(fv) and abs(fv) < 2 ** 31:
         forms += [int(fv), np.int64(int(fv))]
     return forms[k % len(forms)]
+
+
+SMALL_STACK_TEMPLATE = """
+import sys, threading, warnings, json
+import numpy as np
+import pandas as pd
+import scipy.stats
+warnings.simplefilter("ignore")
+{imports}
+threading.stack_size({kb} * 1024)
+out = {{}}
+def work():
+{body}
+t = threading.Thread(target=work)
+t.start()
+t.join()
+print("RESULT " + json.dumps(out))
+"""
+
+
+def on_small_stack(imports, body, kb=192, timeout=600):
+    """Run `body` (python source defining entries of the dict `out`, numbers only) on a
+    thread with a small C stack, in a child interpreter (thread pools of embedded and
+    musl-based systems give 128 KiB; the unchanged library runs within 128 KiB, imports
+    included). Returns (returncode, dict or None)."""
+    import subprocess
+    import textwrap
+    code = SMALL_STACK_TEMPLATE.format(imports=imports, kb=kb,
+                                       body=textwrap.indent(textwrap.dedent(body), "    "))
+    r = subprocess.run([sys.executable, "-c", code], capture_output=True, text=True,
+                       timeout=timeout)
+    res = None
+    for ln in r.stdout.splitlines():
+        if ln.startswith("RESULT "):
+            try:
+                res = json.loads(ln[7:])
+            except Exception:
+                res = None
+    return r.returncode, res
 
 
 def runtime_str(s, k=0):
@@ -577,6 +653,24 @@ class Ctx:
                    f"{label}|answer-differs-when-called-from-several-threads", case,
                    lambda: {"threads_with_wrong_answers": sorted(set(wrong)),
                             "n_wrong_calls": len(wrong), "errors": errors[:3]})
+
+    def small_stack(self, label, imports, body, expected, case, rtol=1e-12):
+        """the numbers `body` computes on a 192 KiB thread stack in a child interpreter
+        equal the ones computed here (`expected`: dict of floats); a child that dies is
+        a violation, one that cannot be started is not"""
+        try:
+            rc, res = on_small_stack(imports, body)
+        except Exception as e:
+            self.extra[f"small-stack-not-run:{label}"] += 1
+            return
+        self.tag("small-thread-stack")
+        self.api(label)
+        ok = rc == 0 and res is not None and set(res) == set(expected) and all(
+            same_result(np.float64(res[k]), np.float64(expected[k]), rtol, 0.0)
+            for k in expected)
+        self.check("small-stack.same-answer", ok,
+                   f"{label}|dies-or-differs-on-a-thread-with-a-small-stack", case,
+                   lambda: {"returncode": rc, "child": res, "here": expected})
 
     def shapes(self, label, fn, x, base, case, rtol=1e-12, atol=0.0):
         """An element-wise function gives every element the same answer whatever the
